@@ -26,6 +26,7 @@
 namespace gil = boost::gil;
 typedef std::array<long, 4> karr;
 typedef std::map<karr, long> model_t;
+typedef long double ld;
 
 template <class F> static void V(const std::string& key, F detail) {
     auto& p = vh::st().viol_printed;
@@ -153,39 +154,69 @@ template <class Hist> static bool hist_equals(Hist const& H, model_t const& M, s
 }
 
 // ---- post operations on a filled histogram ---------------------------------------------------------
-template <class Hist> static void check_cumulative(Hist const& H, model_t const& M, const std::string& cls, const std::string& what) {
+// Every post-operation is judged twice: on the integer counts (exact, tol = 0) and, after normalize(), on
+// fractional bins (tol = 1e-9) -- a post-operation that is only right for integral bin values (e.g. one
+// that accumulates in an integer type) is invisible on counts.  The model is a map key -> long double.
+typedef std::map<karr, ld> fmodel_t;
+static fmodel_t scaled_model(model_t const& M, ld scale) { fmodel_t F; for (auto const& kv : M) F[kv.first] = kv.second * scale; return F; }
+static ld fmodel_total(fmodel_t const& F) { ld t = 0; for (auto const& kv : F) t += kv.second; return t; }
+static bool differs(double got, ld expect, double tol) { return tol == 0 ? (ld)got != expect : std::fabs((double)((ld)got - expect)) > tol; }
+
+// every bin of H within tol of the model, every non-zero model bin present, sum of bins == model total
+template <class Hist> static bool hist_near(Hist const& H, fmodel_t const& F, double tol, std::string* why) {
+    const int D = (int)Hist::dimension();
+    ld sum = 0;
+    for (auto const& kv : H) {
+        karr ka = key_arr(kv.first);
+        auto it = F.find(ka);
+        ld expect = it == F.end() ? 0 : it->second;
+        sum += kv.second;
+        if (differs(kv.second, expect, tol)) { if (why) *why = vh::cat("bin ", kstr(ka, D), " holds ", kv.second, ", the model ", (double)expect); return false; }
+    }
+    for (auto const& kv : F) if (kv.second != 0) {
+        if (H.find(make_key<typename Hist::key_type>(kv.first)) == H.end()) { if (why) *why = vh::cat("bin ", kstr(kv.first, D), " is missing, the model holds ", (double)kv.second); return false; }
+    }
+    if (differs((double)sum, fmodel_total(F), tol)) { if (why) *why = vh::cat("sum of bins ", (double)sum, " != model total ", (double)fmodel_total(F)); return false; }
+    return true;
+}
+
+// tag: "" for counts, "normalized." for fractional bins (part of the violation key)
+template <class Hist> static void check_cumulative(Hist const& H, fmodel_t const& F, double tol, const std::string& tag, const std::string& cls, const std::string& what) {
     const int D = (int)Hist::dimension();
     Hist C = gil::cumulative_histogram(H);
     vh::evals(1);
-    // model: C[k] = sum of H[k'] over k' <= k componentwise, for every key of H
-    std::vector<std::pair<karr, double>> bins;
-    for (auto const& kv : H) bins.push_back({key_arr(kv.first), kv.second});
-    const double total = (double)model_total(M);
-    if (C.size() != H.size()) V("cumulative.keys." + cls, [&] { return vh::cat(what, " cumulative histogram has ", C.size(), " bins, the histogram ", H.size()); });
+    const ld total = fmodel_total(F);
+    if (C.size() != H.size()) V("cumulative.keys." + tag + cls, [&] { return vh::cat(what, " cumulative histogram has ", C.size(), " bins, the histogram ", H.size()); });
+    for (auto const& kv : H) if (C.find(kv.first) == C.end()) { V("cumulative.keys." + tag + cls, [&] { return vh::cat(what, " cumulative histogram lacks bin ", kstr(key_arr(kv.first), D)); }); break; }
     std::vector<std::pair<karr, double>> cum;
     for (auto const& kv : C) cum.push_back({key_arr(kv.first), kv.second});
+    // value: C[k] = sum of the model bins k' <= k componentwise (long double)
     for (auto const& ck : cum) {
-        double expect = 0;
-        for (auto const& b : bins) { bool le = true; for (int j = 0; j < D; ++j) if (b.first[j] > ck.first[j]) le = false; if (le) expect += b.second; }
-        if (ck.second != expect) { V("cumulative.value." + cls, [&] { return vh::cat(what, " cumulative bin ", kstr(ck.first, D), " = ", ck.second, ", sum of dominated bins = ", expect); }); break; }
+        ld expect = 0;
+        for (auto const& b : F) { bool le = true; for (int j = 0; j < D; ++j) if (b.first[j] > ck.first[j]) le = false; if (le) expect += b.second; }
+        if (differs(ck.second, expect, tol)) { V("cumulative.value." + tag + cls, [&] { return vh::cat(what, " cumulative bin ", kstr(ck.first, D), " = ", ck.second, ", sum of dominated bins = ", (double)expect); }); break; }
     }
-    // monotone along every axis; a bin that dominates all others holds the total
+    // monotone along every axis; a bin that dominates all others (last / corner bin) holds the total
     bool reported = false;
     for (auto const& a : cum) {
         bool dominates_all = true;
         for (auto const& b : cum) {
             bool le = true; for (int j = 0; j < D; ++j) if (b.first[j] > a.first[j]) le = false;
             if (!le) { dominates_all = false; continue; }
-            if (b.second > a.second && !reported) { reported = true; V("cumulative.monotone." + cls, [&] { return vh::cat(what, " cumulative ", kstr(b.first, D), "=", b.second, " > ", kstr(a.first, D), "=", a.second); }); }
+            if (b.second > a.second + tol && !reported) { reported = true; V("cumulative.monotone." + tag + cls, [&] { return vh::cat(what, " cumulative ", kstr(b.first, D), "=", b.second, " > ", kstr(a.first, D), "=", a.second); }); }
         }
-        if (dominates_all && a.second != total) V("cumulative.last." + cls, [&] { return vh::cat(what, " last cumulative bin ", kstr(a.first, D), " = ", a.second, ", total = ", total); });
+        if (dominates_all) {
+            vh::obs(vh::cat("cumulative.corner.", tag, "d", D));
+            if (differs(a.second, total, tol)) V("cumulative.last." + tag + cls, [&] { return vh::cat(what, " last cumulative bin ", kstr(a.first, D), " = ", a.second, ", total = ", (double)total); });
+        }
     }
 }
 
-template <class Hist> static void check_normalize(Hist H, model_t const& M, const std::string& cls, const std::string& what) {
+// normalize() on a copy; returns the normalized histogram (left untouched when the total is 0)
+template <class Hist> static Hist check_normalize(Hist H, model_t const& M, const std::string& cls, const std::string& what) {
     const int D = (int)Hist::dimension();
     const double total = (double)model_total(M);
-    if (total == 0) return;
+    if (total == 0) return H;
     H.normalize();
     vh::evals(1);
     double s = 0;
@@ -198,53 +229,56 @@ template <class Hist> static void check_normalize(Hist H, model_t const& M, cons
     }
     if (std::fabs(s - 1.0) > 1e-9) V("normalize.sum." + cls, [&] { return vh::cat(what, " normalized bins sum to ", s); });
     if (std::fabs(H.sum() - 1.0) > 1e-9) V("normalize.sum-member." + cls, [&] { return vh::cat(what, " histogram::sum() after normalize = ", H.sum()); });
+    return H;
 }
 
 // marginal over the axes Ax...
-template <class Hist, std::size_t... Ax> static void check_marginal(Hist& H, model_t const& M, const std::string& cls, const std::string& what) {
+template <class Hist, std::size_t... Ax> static void check_marginal(Hist& H, fmodel_t const& F, double tol, const std::string& tag, const std::string& cls, const std::string& what) {
     auto S = H.template sub_histogram<Ax...>();
     vh::evals(1);
     const std::size_t ax[] = {Ax...};
     const int SD = (int)sizeof...(Ax);
-    model_t MS;
-    for (auto const& kv : M) { karr k{{0, 0, 0, 0}}; for (int j = 0; j < SD; ++j) k[j] = kv.first[ax[j]]; MS[k] += kv.second; }
-    // zero bins of H (dense / accumulate leftovers) project to zero bins: allowed by hist_equals
+    fmodel_t FS;
+    for (auto const& kv : F) { karr k{{0, 0, 0, 0}}; for (int j = 0; j < SD; ++j) k[j] = kv.first[ax[j]]; FS[k] += kv.second; }
+    // zero bins of H (dense / accumulate leftovers) project to zero bins: allowed by hist_near
     std::string why;
     std::string axs; for (int j = 0; j < SD; ++j) axs += std::to_string(ax[j]);
-    if (!hist_equals(S, MS, &why)) V("sub-axes.bins." + cls + ".ax" + axs, [&] { return vh::cat(what, " sub_histogram<", axs, ">: ", why); });
-    if (S.sum() != (double)model_total(M)) V("sub-axes.mass." + cls + ".ax" + axs, [&] { return vh::cat(what, " sub_histogram<", axs, "> total ", S.sum(), " != ", model_total(M)); });
+    if (!hist_near(S, FS, tol, &why)) V("sub-axes.bins." + tag + cls + ".ax" + axs, [&] { return vh::cat(what, " sub_histogram<", axs, ">: ", why); });
+    if (differs(S.sum(), fmodel_total(F), tol)) V("sub-axes.mass." + tag + cls + ".ax" + axs, [&] { return vh::cat(what, " sub_histogram<", axs, "> total ", S.sum(), " != ", (double)fmodel_total(F)); });
 }
 // key range on one axis
-template <class Hist, std::size_t Ax> static void check_range(Hist& H, model_t const& M, vh::rng& r, const std::string& cls, const std::string& what) {
+template <class Hist, std::size_t Ax> static void check_range(Hist& H, fmodel_t const& F, double tol, vh::rng& r, const std::string& tag, const std::string& cls, const std::string& what) {
     const int D = (int)Hist::dimension();
     long kmin = 0, kmax = 0; bool first = true;
-    for (auto const& kv : M) { long v = kv.first[Ax]; if (first || v < kmin) kmin = v; if (first || v > kmax) kmax = v; first = false; }
+    for (auto const& kv : F) { long v = kv.first[Ax]; if (first || v < kmin) kmin = v; if (first || v > kmax) kmax = v; first = false; }
     long lo = kmin + r.range(-1, 2), hi = lo + r.range(0, (int)std::min<long>(kmax - kmin + 1, 1000));
     karr l{{0, 0, 0, 0}}, u{{0, 0, 0, 0}};
     for (int j = 0; j < D; ++j) { l[j] = r.range(-5, 5); u[j] = r.range(-5, 5); }   // the other axes must not matter
     l[Ax] = lo; u[Ax] = hi;
     auto S = H.template sub_histogram<Ax>(make_key<typename Hist::key_type>(l), make_key<typename Hist::key_type>(u));
     vh::evals(1);
-    model_t MS;
-    for (auto const& kv : M) if (kv.first[Ax] >= lo && kv.first[Ax] <= hi) MS[kv.first] = kv.second;
+    fmodel_t FS;
+    for (auto const& kv : F) if (kv.first[Ax] >= lo && kv.first[Ax] <= hi) FS[kv.first] = kv.second;
     std::string why;
-    if (!hist_equals(S, MS, &why)) V("sub-range.bins." + cls + ".ax" + std::to_string(Ax), [&] { return vh::cat(what, " sub_histogram<", Ax, ">(", lo, "..", hi, "): ", why); });
+    if (!hist_near(S, FS, tol, &why)) V("sub-range.bins." + tag + cls + ".ax" + std::to_string(Ax), [&] { return vh::cat(what, " sub_histogram<", Ax, ">(", lo, "..", hi, "): ", why); });
     // exactly the bins in range: no key of S outside it
-    for (auto const& kv : S) { karr ka = key_arr(kv.first); if (ka[Ax] < lo || ka[Ax] > hi) { V("sub-range.outside." + cls + ".ax" + std::to_string(Ax), [&] { return vh::cat(what, " sub_histogram<", Ax, ">(", lo, "..", hi, ") kept bin ", kstr(ka, D)); }); break; } }
+    for (auto const& kv : S) { karr ka = key_arr(kv.first); if (ka[Ax] < lo || ka[Ax] > hi) { V("sub-range.outside." + tag + cls + ".ax" + std::to_string(Ax), [&] { return vh::cat(what, " sub_histogram<", Ax, ">(", lo, "..", hi, ") kept bin ", kstr(ka, D)); }); break; } }
 }
-template <class Hist> static void post_subs(Hist&, model_t const&, vh::rng&, const std::string&, const std::string&, std::integral_constant<int, 1>) {}
-template <class Hist> static void post_subs(Hist& H, model_t const& M, vh::rng& r, const std::string& cls, const std::string& what, std::integral_constant<int, 2>) {
-    check_marginal<Hist, 0>(H, M, cls, what); check_marginal<Hist, 1>(H, M, cls, what);
-    check_range<Hist, 0>(H, M, r, cls, what); check_range<Hist, 1>(H, M, r, cls, what);
+#define PS_ARGS Hist& H, fmodel_t const& F, double tol, vh::rng& r, const std::string& tag, const std::string& cls, const std::string& what
+template <class Hist> static void post_subs(PS_ARGS, std::integral_constant<int, 1>) {}   // sub_histogram needs >= 2 axes
+template <class Hist> static void post_subs(PS_ARGS, std::integral_constant<int, 2>) {
+    check_marginal<Hist, 0>(H, F, tol, tag, cls, what); check_marginal<Hist, 1>(H, F, tol, tag, cls, what);
+    check_range<Hist, 0>(H, F, tol, r, tag, cls, what); check_range<Hist, 1>(H, F, tol, r, tag, cls, what);
 }
-template <class Hist> static void post_subs(Hist& H, model_t const& M, vh::rng& r, const std::string& cls, const std::string& what, std::integral_constant<int, 3>) {
-    check_marginal<Hist, 1>(H, M, cls, what); check_marginal<Hist, 2, 0>(H, M, cls, what); check_marginal<Hist, 0, 1>(H, M, cls, what);
-    check_range<Hist, 0>(H, M, r, cls, what); check_range<Hist, 2>(H, M, r, cls, what);
+template <class Hist> static void post_subs(PS_ARGS, std::integral_constant<int, 3>) {
+    check_marginal<Hist, 1>(H, F, tol, tag, cls, what); check_marginal<Hist, 2, 0>(H, F, tol, tag, cls, what); check_marginal<Hist, 0, 1>(H, F, tol, tag, cls, what);
+    check_range<Hist, 0>(H, F, tol, r, tag, cls, what); check_range<Hist, 2>(H, F, tol, r, tag, cls, what);
 }
-template <class Hist> static void post_subs(Hist& H, model_t const& M, vh::rng& r, const std::string& cls, const std::string& what, std::integral_constant<int, 4>) {
-    check_marginal<Hist, 3>(H, M, cls, what); check_marginal<Hist, 0, 2>(H, M, cls, what); check_marginal<Hist, 3, 1, 0>(H, M, cls, what);
-    check_range<Hist, 1>(H, M, r, cls, what); check_range<Hist, 3>(H, M, r, cls, what);
+template <class Hist> static void post_subs(PS_ARGS, std::integral_constant<int, 4>) {
+    check_marginal<Hist, 3>(H, F, tol, tag, cls, what); check_marginal<Hist, 0, 2>(H, F, tol, tag, cls, what); check_marginal<Hist, 3, 1, 0>(H, F, tol, tag, cls, what);
+    check_range<Hist, 1>(H, F, tol, r, tag, cls, what); check_range<Hist, 3>(H, F, tol, r, tag, cls, what);
 }
+#undef PS_ARGS
 
 // ---- one fill experiment: prior contents, then the fill under test ---------------------------------
 template <class P, class Hist, std::size_t... Dims>
@@ -302,9 +336,21 @@ static void fill_experiment(content<P>& prior, content<P>& c, long bw, int cls, 
     if (c.w && c.h) vh::distinct_hash(vh::mix(vh::mix(c.hash(), prior.hash()), vh::hash_str(kcls + vr.str()) + (uint64_t)bw));
     if (!post) return;
     const std::string pcls = vh::cat(tname, ".", histname);
-    check_cumulative(H, M0, pcls, what());
-    check_normalize(H, M0, pcls, what());
-    post_subs(H, M0, r, pcls, what(), std::integral_constant<int, Hist::dimension()>{});
+    const std::integral_constant<int, Hist::dimension()> dim{};
+    // on the integer counts: exact
+    const fmodel_t F1 = scaled_model(M0, 1);
+    check_cumulative(H, F1, 0.0, "", pcls, what());
+    post_subs(H, F1, 0.0, r, "", pcls, what(), dim);
+    // on fractional bins: normalize(), then the same post-operations against count/total in long double
+    Hist Hn = check_normalize(H, M0, pcls, what());
+    const long total = model_total(M0);
+    if (total > 0) {
+        const fmodel_t Fn = scaled_model(M0, (ld)1 / (ld)total);
+        bool fractional = false; for (auto const& kv : M0) if (kv.second && kv.second != total) fractional = true;
+        vh::obs(vh::cat("post.normalized.d", D, fractional ? ".fractional" : ".single-bin"));
+        check_cumulative(Hn, Fn, 1e-9, "normalized.", pcls, what());
+        post_subs(Hn, Fn, 1e-9, r, "normalized.", pcls, what(), dim);
+    }
 }
 
 template <class P, class Hist, std::size_t... Dims>
